@@ -54,6 +54,9 @@ func (t *Type) Expr() string {
 	case KPtr, KStructPtr, KExt:
 		return "*" + t.Name
 	case KCtx:
+		if t.Name != "" && t.Name != "Context" {
+			return t.Name // an alias of context.Context declared by the package
+		}
 		return "context.Context"
 	}
 	return t.Name
@@ -109,6 +112,7 @@ type Spec struct {
 	NFiles    int        `json:"nfiles"`
 	OneInvoke bool       `json:"one_invoke"` // all k*.go files passed to one generator invocation
 	Shape     string     `json:"shape"`
+	Wide      bool       `json:"wide,omitempty"` // one provider has more than 64 parameters
 	// MultiVarSets renders the named Sets of an injector in one multi-name var spec.
 	MultiVarSets bool `json:"multi_var_sets,omitempty"`
 	// Compose, if set, adds one more declaration file whose injector uses an injector GENERATED from an
